@@ -161,7 +161,7 @@ class Spec(object):
 
     def bad(self, check, detail):
         # qualifier: the same symptom has different root causes in a session whose transaction was damaged by a failed flush / load
-        if self.db_error: check += '-after-db-error'
+        if self.db_error and not check.endswith(('-by-unsaved-object', '-after-remove')): check += '-after-db-error'
         self.violations.append((check, detail))
         self.stopped = check
 
